@@ -4,6 +4,7 @@ package main
 // convert at the same time (oracle only: the model's conversions are pure functions).
 
 import (
+	"github.com/ovh/kmip-go/payloads"
 	"fmt"
 	"sync"
 
@@ -13,7 +14,53 @@ import (
 	"verifharness/internal/h"
 )
 
+// c17ForeignTagEnums: a generic value holding an enumeration of a REGISTERED tag, written under another tag
+// (the value of a custom attribute): what the text encodings write for it is read back as the same number.
+func c17ForeignTagEnums(c *h.Ctx) {
+	for _, tv := range []struct {
+		tag int
+		val uint32
+	}{{kmip.TagCryptographicAlgorithm, 3}, {kmip.TagObjectType, 2}, {kmip.TagOperation, 10}, {kmip.TagCryptographicAlgorithm, 0x80000001}, {kmip.TagState, 1}} {
+		m := kmip.RequestMessage{Header: kmip.RequestHeader{ProtocolVersion: kmip.V1_4, BatchCount: 1},
+			BatchItem: []kmip.RequestBatchItem{{Operation: kmip.OperationAddAttribute, RequestPayload: &payloads.AddAttributeRequestPayload{
+				UniqueIdentifier: "id", Attribute: kmip.Attribute{AttributeName: "x-enum", AttributeValue: ttlv.Value{Tag: tv.tag, Value: ttlv.Enum(tv.val)}}}}}}
+		for _, f := range []string{"xml", "json"} {
+			res := func() (s string) {
+				defer func() {
+					if r := recover(); r != nil {
+						s = fmt.Sprint("panic: ", r)
+					}
+				}()
+				bin := ttlv.MarshalTTLV(&m)
+				var doc []byte
+				var back kmip.RequestMessage
+				var err error
+				if f == "xml" {
+					doc = ttlv.MarshalXML(&m)
+					err = ttlv.UnmarshalXML(doc, &back)
+				} else {
+					doc = ttlv.MarshalJSON(&m)
+					err = ttlv.UnmarshalJSON(doc, &back)
+				}
+				if err != nil {
+					return "own " + f + " output rejected: " + err.Error()
+				}
+				if string(ttlv.MarshalTTLV(&back)) != string(bin) {
+					return "read back as another value"
+				}
+				return ""
+			}()
+			c.Eval(fmt.Sprintf("foreign-tag-enum/%x/%x/%s", tv.tag, tv.val, f), true)
+			if res != "" {
+				c.Fail("C17/generic-enum-under-foreign-tag/"+f, fmt.Sprintf("enumeration 0x%X of tag 0x%06X held in a generic value under the tag of a custom attribute's value: %s", tv.val, tv.tag, res),
+					map[string]any{"kind": "concurrent-mask-names", "tag": tv.tag, "value": tv.val, "format": f})
+			}
+		}
+	}
+}
+
 func c17Concurrent(c *h.Ctx) {
+	c17ForeignTagEnums(c)
 	masks := []kmip.CryptographicUsageMask{
 		kmip.CryptographicUsageSign | kmip.CryptographicUsageVerify, kmip.CryptographicUsageEncrypt | kmip.CryptographicUsageDecrypt | kmip.CryptographicUsageWrapKey,
 		kmip.CryptographicUsageMACGenerate | kmip.CryptographicUsageMACVerify | kmip.CryptographicUsageDeriveKey, kmip.CryptographicUsageContentCommitment | kmip.CryptographicUsageKeyAgreement,
@@ -51,6 +98,53 @@ func c17Concurrent(c *h.Ctx) {
 		}(g)
 	}
 	wg.Wait()
+	// enumeration names as well: every goroutine writes its own (tag, value) by name
+	type ecase struct {
+		v    any
+		want string
+	}
+	evals := []any{kmip.ObjectTypeSymmetricKey, kmip.ObjectTypeCertificate, kmip.CryptographicAlgorithmAES, kmip.CryptographicAlgorithmRSA, kmip.CryptographicAlgorithmDES,
+		kmip.OperationGet, kmip.OperationLocate, kmip.BlockCipherModeGCM, kmip.ResultReasonItemNotFound, kmip.KeyFormatTypeRaw, kmip.StateActive, kmip.HashingAlgorithmSHA_256}
+	ename := func(v any) (s string) {
+		defer func() {
+			if r := recover(); r != nil {
+				s = fmt.Sprint("panic: ", r)
+			}
+		}()
+		txt := ""
+		if tm, ok := v.(interface{ MarshalText() ([]byte, error) }); ok {
+			b, _ := tm.MarshalText()
+			txt = string(b)
+		}
+		xe, je := ttlv.NewXMLEncoder(), ttlv.NewJSONEncoder()
+		xe.TagAny(kmip.TagAttributeValue, v)
+		je.TagAny(kmip.TagAttributeValue, v)
+		return txt + "|" + string(xe.Bytes()) + "|" + string(je.Bytes())
+	}
+	ewant := make([]string, len(evals))
+	for i, v := range evals {
+		ewant[i] = ename(v)
+	}
+	ebad := make([]string, len(evals))
+	var wg2 sync.WaitGroup
+	for g := range evals {
+		wg2.Add(1)
+		go func(g int) {
+			defer wg2.Done()
+			for it := 0; it < 4000 && ebad[g] == ""; it++ {
+				if got := ename(evals[g]); got != ewant[g] {
+					ebad[g] = fmt.Sprintf("%T value written while other goroutines write other enumeration values: %q, alone: %q", evals[g], got, ewant[g])
+				}
+			}
+		}(g)
+	}
+	wg2.Wait()
+	for g, s := range ebad {
+		if s != "" {
+			c.Fail("C17/names-depend-on-concurrent-conversions", s, map[string]any{"kind": "concurrent-mask-names", "goroutine": g})
+			break
+		}
+	}
 	c.Eval("concurrent-mask-names", true)
 	c.Count("leg:concurrent-mask-names")
 	for g, s := range bad {
